@@ -47,7 +47,14 @@ func (l *layout) spellings(kind string, rng *rand.Rand, n int, twoArg bool) []sp
 	relEvil, _ := filepath.Rel(l.root, l.evil)
 	cwdOut, _ := filepath.Rel(l.cwd, filepath.Join(l.outside, T))
 	isDirKind := kind == kDir || kind == kNewDir
-	dbl := func(p string) string { return strings.ReplaceAll(p, "/", "//") }
+	// every separator doubled, except inside the instance prefix (which is rewritten for variant B and in the outputs)
+	dbl := func(p string) string {
+		if strings.HasPrefix(p, l.top) {
+			return l.top + strings.ReplaceAll(strings.TrimPrefix(p, l.top), "/", "//")
+		}
+
+		return strings.ReplaceAll(p, "/", "//")
+	}
 
 	type cls struct {
 		name    string
